@@ -5,3 +5,4 @@ import RelicVerif.Props.C19
 import RelicVerif.Props.C02
 import RelicVerif.Props.C07
 import RelicVerif.Props.C14
+import RelicVerif.Props.C09
